@@ -16,9 +16,9 @@ TWOFISH_VALID = "|b| { let o = core::mem::offset_of!(crate::Twofish, start); u64
 
 
 def T(crate, ty, ident, alg, klen, bs, valid=ALWAYS, exempt=NONE, dirs=("enc", "dec"), uses="", heavy=False, frame=True, blocks=True, weak=True, checked=None, nb=2,
-      accepted=None, ks_stub=None, eq_slice=True):
+      accepted=None, ks_stub=None, eq_slice=True, debug=True):
     return dict(crate=crate, ty=ty, ident=ident, alg=alg, klen=klen, bs=bs, valid=valid, exempt=exempt, dirs=dirs, uses=uses,
-                heavy=heavy, frame=frame, blocks=blocks, weak=weak, checked=checked, nb=nb,
+                heavy=heavy, frame=frame, blocks=blocks, weak=weak, checked=checked, nb=nb, debug=debug,
                 accepted=accepted or ("|l| l == %d" % klen), ks_stub=ks_stub, eq_slice=eq_slice)
 
 
@@ -33,7 +33,7 @@ TYPES = [
     T("aria", "crate::Aria128", "Aria128", ["aria", "128"], 16, 16),
     T("aria", "crate::Aria192", "Aria192", ["aria", "192"], 24, 16),
     T("aria", "crate::Aria256", "Aria256", ["aria", "256"], 32, 16),
-    T("belt-block", "crate::BeltBlock", "BeltBlock", ["belt"], 32, 16),
+    T("belt-block", "crate::BeltBlock", "BeltBlock", ["belt"], 32, 16, debug=False),   # implements AlgorithmName only, no Debug
     T("blowfish", "crate::Blowfish", "Blowfish<BE>", ["blowfish", "be"], 56, 8, heavy=True, accepted="|l| l >= 4 && l <= 56", ks_stub=BLOWFISH_KS, eq_slice=False),
     T("blowfish", "crate::BlowfishLE", "Blowfish<LE>", ["blowfish", "le"], 56, 8, heavy=True, accepted="|l| l >= 4 && l <= 56", ks_stub=BLOWFISH_KS, eq_slice=False),
     T("camellia", "crate::Camellia128", "Camellia128", ["camellia", "128"], 16, 16),
@@ -47,11 +47,11 @@ TYPES = [
     T("kuznyechik", "crate::KuznyechikEnc", "KuznyechikEnc", ["kuznyechik"], 32, 16, dirs=("enc",), heavy=True),
     T("kuznyechik", "crate::KuznyechikDec", "KuznyechikDec", ["kuznyechik"], 32, 16, dirs=("dec",), heavy=True),
     T("magma", "crate::Magma", "Magma", ["magma"], 32, 8),
-    T("magma", "crate::Gost89Test", "Gost89<Test", ["gost", "test"], 32, 8),
-    T("magma", "crate::Gost89CryptoProA", "Gost89<CryptoProA", ["gost", "cryptopro", "a"], 32, 8),
-    T("magma", "crate::Gost89CryptoProB", "Gost89<CryptoProB", ["gost", "cryptopro", "b"], 32, 8),
-    T("magma", "crate::Gost89CryptoProC", "Gost89<CryptoProC", ["gost", "cryptopro", "c"], 32, 8),
-    T("magma", "crate::Gost89CryptoProD", "Gost89<CryptoProD", ["gost", "cryptopro", "d"], 32, 8),
+    T("magma", "crate::Gost89Test", "Gost89<TestSbox>", ["gost89", "testsbox"], 32, 8),
+    T("magma", "crate::Gost89CryptoProA", "Gost89<CryptoProA>", ["gost89", "cryptoproa"], 32, 8),
+    T("magma", "crate::Gost89CryptoProB", "Gost89<CryptoProB>", ["gost89", "cryptoprob"], 32, 8),
+    T("magma", "crate::Gost89CryptoProC", "Gost89<CryptoProC>", ["gost89", "cryptoproc"], 32, 8),
+    T("magma", "crate::Gost89CryptoProD", "Gost89<CryptoProD>", ["gost89", "cryptoprod"], 32, 8),
     T("rc2", "crate::Rc2", "Rc2", ["rc2"], 32, 8, accepted="|l| l >= 1 && l <= 128"),
     T("serpent", "crate::Serpent", "Serpent", ["serpent"], 16, 16, accepted="|l| l >= 16 && l <= 32"),
     T("sm4", "crate::Sm4", "Sm4", ["sm4"], 16, 16),
@@ -86,8 +86,9 @@ def emit(crate, rows):
         ty, bs, kl = t["ty"], t["bs"], t["klen"]
         size_bits = "0"
         o.append("\n// ---- %s\n" % ty)
-        o.append('//@ harness name=%s_debug prop=C19 tier=quick bits=64 desc="Debug of %s on an arbitrary state equals Debug of the zero-bytes instance (key independent) and starts with the identifier `%s`"\n' % (n, ty, t["ident"]))
-        o.append('g_debug!(%s_debug, %s, "%s", %s);\n' % (n, ty, t["ident"], t["valid"]))
+        if t["debug"]:
+            o.append('//@ harness name=%s_debug prop=C19 tier=quick bits=64 desc="Debug of %s on an arbitrary state equals Debug of the zero-bytes instance (key independent) and starts with the identifier `%s`"\n' % (n, ty, t["ident"]))
+            o.append('g_debug!(%s_debug, %s, "%s", %s);\n' % (n, ty, t["ident"], t["valid"]))
         parts = ", ".join('"%s"' % p for p in t["alg"])
         o.append('//@ harness name=%s_algname prop=C19 tier=quick bits=0 desc="AlgorithmName of %s contains (case-insensitively) %s"\n' % (n, ty, " and ".join(t["alg"])))
         o.append("g_algname!(%s_algname, %s, [%s]);\n" % (n, ty, parts))
@@ -109,7 +110,7 @@ def emit(crate, rows):
         tier = "thorough" if t["heavy"] else "quick"
         for d in t["dirs"]:
             if t["frame"]:
-                o.append('//@ harness name=%s_frame_%s prop=C15,C20 tier=%s bits=%d desc="%s: %s_block on an arbitrary valid state and block returns (no panic / overflow / bounds failure) and leaves every byte of the instance unchanged; nothing abstracted"\n' % (n, d, tier, 8 * bs + 64, ty, "encrypt" if d == "enc" else "decrypt"))
+                o.append('//@ harness name=%s_frame_%s prop=C15,C20 tier=%s bits=%d desc="%s: %s_block on an arbitrary valid state returns for every block (no panic / overflow / bounds failure); the history op(x); op(y); op(x) on one instance gives equal first and third results and leaves every byte of the instance unchanged; nothing abstracted"\n' % (n, d, tier, 16 * bs + 64, ty, "encrypt" if d == "enc" else "decrypt"))
                 o.append("g_frame1!(%s_frame_%s, %s, %d, %s, %s);\n" % (n, d, ty, bs, t["valid"], d))
             if t["blocks"]:
                 o.append('//@ harness name=%s_blocks_%s prop=C04,C20 tier=%s bits=%d desc="%s (%s): multi-block in place, multi-block b2b and single b2b calls with n symbolic in 0..=%d equal per-block in-place calls; separate input unchanged; output blocks >= n untouched; arbitrary valid state"\n' % (n, d, tier, 8 * bs * t["nb"] + 72, ty, d, t["nb"]))
